@@ -3,12 +3,13 @@ from __future__ import annotations
 
 import ast
 
-from .. import astu, flow, types
+from .. import astu, evid, flow, types
 from ..cfg import cfg_of
 from ..model import AnalysisError
 from ..report import key_of
 from . import Mutant, meta, rule
 from . import c05 as _c05
+from .c06 import _kw_forward
 
 LI = 'flax/core/lift.py'
 TR = 'flax/linen/transforms.py'
@@ -23,19 +24,21 @@ def r1(R, repo):
   v = mod.func('vjp')
   pk = [x for x in astu.func_calls(v) if astu.call_name(x) == 'pack']
   R.require(len(pk) == 1, 'lift.vjp: pack not found')
-  R.check([astu.src(a) for a in pk[0].args[1:4]] == ['(vjp_variables, variables)', '(variables,)', '(rngs,)'], key_of(v, 'in = (vjp_variables, variables), out = (variables,)'), (v, pk[0]),
-          'lift.vjp must lift (vjp_variables, variables) in and (variables,) out')
+  evid.judge_call_args(R, repo, v, pk[0], [None, '(vjp_variables, variables)', '(variables,)', '(rngs,)'], key_of(v, 'in = (vjp_variables, variables), out = (variables,)'), (v, pk[0]),
+                       'lift.vjp must lift (vjp_variables, variables) in and (variables,) out')
   inner = mod.func('vjp.inner')
   unp = [n for n in astu.body_walk(inner.node) if isinstance(n, ast.Assign) and astu.src(n.value) == 'variable_groups']
   R.require(len(unp) == 1 and isinstance(unp[0].targets[0], ast.Tuple), 'vjp.inner: variable_groups unpacking not found')
   dv, ov = [astu.src(e) for e in unp[0].targets[0].elts]
   call = [x for x in astu.func_calls(inner) if astu.call_name(x) == 'jax.vjp']
   R.require(len(call) == 1, 'vjp.inner: jax.vjp call not found')
-  ok = [astu.src(a) for a in call[0].args[:2]] == ['wrapper', dv] and astu.is_const(astu.kwarg(call[0], 'has_aux'), True) and isinstance(call[0].args[2], ast.Starred)
-  R.check(ok, key_of(inner, 'jax.vjp(wrapper, <first group>, *args, has_aux=True)'), (inner, call[0]), 'jax.vjp must differentiate the wrapper with respect to the first (selected) variable group and the arguments')
+  key = key_of(inner, 'jax.vjp(wrapper, <first group>, *args, has_aux=True)')
+  evid.judge_call_args(R, repo, inner, call[0], ['wrapper', dv], key, (inner, call[0]), 'jax.vjp must differentiate the wrapper with respect to the first (selected) variable group and the arguments', vocab=(dv, ov))
+  ha = astu.kwarg(call[0], 'has_aux')
+  R.check(astu.is_const(ha, True), key + ' :: has_aux', (inner, call[0]), 'jax.vjp must be called with has_aux=True (the repacked variables travel as aux output)', evidence=ha is None or isinstance(ha, ast.Constant))
   w = mod.func('vjp.inner.wrapper')
-  ok = astu.src(types.single_def(w.node, 'variable_groups')) == '(%s, %s)' % (astu.params(w.node)[0], ov)
-  R.check(ok, key_of(w, 'scope built from (differentiated group, closed-over group)'), w, 'the differentiated wrapper must rebuild the groups from its own first argument and the closed-over non-differentiated group')
+  evid.judge_expr(R, w, types.single_def(w.node, 'variable_groups'), '(%s, %s)' % (astu.params(w.node)[0], ov), key_of(w, 'scope built from (differentiated group, closed-over group)'), w,
+                  'the differentiated wrapper must rebuild the groups from its own first argument and the closed-over non-differentiated group', follow=False, vocab=(dv, ov))
   for q in ('vjp.inner', 'jvp.inner', 'custom_vjp.inner'):
     f = mod.func(q)
     unp = [n for n in astu.body_walk(f.node) if isinstance(n, ast.Assign) and astu.src(n.value) == 'variable_groups' and isinstance(n.targets[0], ast.Tuple)]
@@ -43,7 +46,7 @@ def r1(R, repo):
     other = astu.src(unp[0].targets[0].elts[1])
     # single definition in the whole nest of functions: nothing rebinds / wraps the non-differentiated group
     rebinds = [n for n in ast.walk(f.node) if isinstance(n, (ast.Assign, ast.AugAssign)) and n is not unp[0] and other in astu.names_stored(n.targets[0] if isinstance(n, ast.Assign) else n.target)]
-    R.check(not rebinds, key_of(f, 'non-selected group `%s` passed through unmodified' % other), (f, rebinds[0]) if rebinds else f,
+    R.check(not rebinds, key_of(f, 'non-selected group `%s` passed through unmodified' % other), (f, rebinds[0]) if rebinds else f, evidence=True, msg_fail=
             '`%s` rebinds the non-selected variable group: it must reach the scope exactly as given, so that outer differentiation / the forward value see the same function of those collections as jax autodiff of the pure apply' % (astu.short(rebinds[0]) if rebinds else ''))
   n_sg = 0
   for q in AD_FUNCS:
@@ -54,13 +57,17 @@ def r1(R, repo):
         R.fail(key_of(f, 'no stop_gradient in lifted autodiff'), (f, x), '`%s` cuts derivatives inside a lifted autodiff transform: nested jax.grad / jax.jvp over the result would silently get zeros' % astu.short(x))
   j = mod.func('jvp')
   t = astu.src(j.node)
-  ok = 'target = tuple(variable_tangents[0].keys())' in t and "pack(inner, (target, variables), (variables,), (rngs,), name='jvp', enable_kwargs=False)" in t
-  R.check(ok, key_of(j, 'tangent collections select the differentiated group'), j, 'lift.jvp must differentiate exactly the collections for which tangents were given')
+  key = key_of(j, 'tangent collections select the differentiated group')
+  evid.judge_stmts(R, j, ['target = tuple(variable_tangents[0].keys())'], key, j, 'lift.jvp must differentiate exactly the collections for which tangents were given')
+  pk = [x for x in astu.func_calls(j) if astu.call_name(x) == 'pack']
+  evid.judge_call_args(R, repo, j, pk[0] if len(pk) == 1 else None, [None, '(target, variables)', '(variables,)', '(rngs,)'], key + ' :: pack', j, 'lift.jvp must lift (target, variables) in and (variables,) out')
   ji = mod.func('jvp.inner')
-  R.check('jax.jvp(wrapper, (jvp_vars, args), (variable_tangents, tangents))' in astu.src(ji.node), key_of(ji, 'primals (vars, args) paired with tangents (variable_tangents, tangents)'), ji, 'jvp.inner must pair (jvp_vars, args) with (variable_tangents, tangents)')
+  jc = [x for x in astu.func_calls(ji) if astu.call_name(x) == 'jax.jvp']
+  evid.judge_call_args(R, repo, ji, jc[0] if len(jc) == 1 else None, ['wrapper', '(jvp_vars, args)', '(variable_tangents, tangents)'], key_of(ji, 'primals (vars, args) paired with tangents (variable_tangents, tangents)'), ji,
+                       'jvp.inner must pair (jvp_vars, args) with (variable_tangents, tangents)', vocab=('other_vars',))
   vg = mod.func('value_and_grad.inner')
   c = [x for x in astu.func_calls(vg) if astu.call_name(x) == 'jax.vjp']
-  R.check(len(c) == 1 and astu.src(c[0].args[0]) == 'wrapper' and isinstance(c[0].args[1], ast.Starred) and len(c[0].args) == 2, key_of(vg, 'only the arguments are differentiated'), vg, 'value_and_grad must differentiate with respect to the arguments only (variables are closed over)')
+  R.judge(len(c) == 1 and len(c[0].args) >= 2, len(c) == 1 and astu.src(c[0].args[0]) == 'wrapper' and isinstance(c[0].args[1], ast.Starred) and len(c[0].args) == 2, key_of(vg, 'only the arguments are differentiated'), vg, 'value_and_grad must differentiate with respect to the arguments only (variables are closed over)')
 
 
 @rule('C07.R2', 'K4', 4, 'aux output and repacked variables travel together and are destructured in the same layout')
@@ -68,16 +75,21 @@ def r2(R, repo):
   mod = repo.mod(LI)
   for q in ('vjp', 'value_and_grad'):
     w = mod.func(q + '.inner.wrapper')
-    rets = [astu.src(n.value) for n in astu.body_walk(w.node) if isinstance(n, ast.Return)]
-    R.check(rets == ['(y, (aux, repack_fn(scope)))'], key_of(w, 'returns (y, (aux, repacked variables))'), w, '%s.wrapper must return (y, (aux, repack_fn(scope))) on every path' % q)
+    evid.judge_stmts(R, w, ['return (y, (aux, repack_fn(scope)))'], key_of(w, 'returns (y, (aux, repacked variables))'), w, '%s.wrapper must return (y, (aux, repack_fn(scope))) on every path' % q)
     c = cfg_of(w)
     t = [n for n in c.nodes if n.kind == 'if' and astu.src(n.ast) == 'has_aux']
-    R.check(len(t) == 1 and 'y, aux = fn(scope, *args)' in astu.src(w.node) and 'aux = ()' in astu.src(w.node), key_of(w, 'aux = () when has_aux is false'), w, 'without has_aux the auxiliary output must be the empty tuple')
+    evid.judge_stmts(R, w, ['y, aux = fn(scope, *args)', 'aux = ()'], key_of(w, 'aux = () when has_aux is false'), w, 'without has_aux the auxiliary output must be the empty tuple')
     inner = mod.func(q + '.inner')
-    R.check('y, bwd, (aux, out_vars) = jax.vjp(' in astu.src(inner.node), key_of(inner, '(y, bwd, (aux, out_vars)) = jax.vjp(...)'), inner, '%s.inner must destructure jax.vjp\'s result as (y, bwd, (aux, out_vars))' % q)
+    vc = [n for n in astu.body_walk(inner.node) if isinstance(n, ast.Assign) and isinstance(n.value, ast.Call) and astu.call_name(n.value) == 'jax.vjp']
+    evid.judge_expr(R, inner, vc[0].targets[0] if len(vc) == 1 else None, '(y, bwd, (aux, out_vars))', key_of(inner, '(y, bwd, (aux, out_vars)) = jax.vjp(...)'), inner, '%s.inner must destructure jax.vjp\'s result as (y, bwd, (aux, out_vars))' % q, follow=False)
     rets = [astu.src(n.value) for n in astu.body_walk(inner.node) if isinstance(n, ast.Return)]
     want = ['((y, bwd, aux), out_vars)', '((y, bwd), out_vars)'] if q == 'vjp' else ['((y, aux, inputs_grad), out_vars)', '((y, inputs_grad), out_vars)']
-    R.check(rets == want, key_of(inner, 'return shape follows has_aux; variables always second'), inner, '%s.inner must return %s' % (q, want))
+    rn = [n.value for n in astu.body_walk(inner.node) if isinstance(n, ast.Return)]
+    if len(rn) == 2:
+      for r_, w_ in zip(rn, want):
+        evid.judge_expr(R, inner, r_, w_, key_of(inner, 'return shape follows has_aux; variables always second', w_), (inner, r_), '%s.inner must return %s' % (q, want), follow=False, vocab=('y', 'bwd', 'aux', 'out_vars', 'inputs_grad'))
+    else:
+      R.unsure(key_of(inner, 'return shape follows has_aux; variables always second'), inner, 'the two return statements of %s.inner were not found' % q)
 
 
 @rule('C07.R3', 'K5', 5, 'custom_vjp: primal function and forward rule build the same scope and both publish their variables; the user rule is used only backwards')
@@ -86,17 +98,17 @@ def r3(R, repo):
   f, fwd, bwd = mod.func('custom_vjp.inner.f'), mod.func('custom_vjp.inner.f_fwd'), mod.func('custom_vjp.inner.f_bwd')
   sf = [astu.src(x) for x in astu.func_calls(f) if astu.call_name(x) == 'scope_fn']
   sw = [astu.src(x) for x in astu.func_calls(fwd) if astu.call_name(x) == 'scope_fn']
-  R.check(sf == sw == ['scope_fn((grad_variables, other_variables), rng_groups)'], key_of(mod.rel, 'f and f_fwd build the scope from the same groups'), f, 'f and f_fwd must both build their scope with scope_fn((grad_variables, other_variables), rng_groups)')
-  R.check('y = fn(scope, *args)' in astu.src(f.node) and 'return (y, vars_out)' in astu.src(f.node) and 'vars_out = repack_fn(scope)' in astu.src(f.node), key_of(f, 'primal: fn, repack, (y, vars_out)'), f, 'f must call the original fn and return (y, repacked variables)')
-  R.check('y, res = forward_fn(scopes, *args)' in astu.src(fwd.node) and 'return ((y, vars_out), res)' in astu.src(fwd.node) and 'vars_out = repack_fn(scopes)' in astu.src(fwd.node), key_of(fwd, 'forward: forward_fn, repack, ((y, vars_out), res)'), fwd,
+  R.judge(len(sf) == 1 and len(sw) == 1, sf == sw, key_of(mod.rel, 'f and f_fwd build the scope from the same groups'), f, 'f and f_fwd must both build their scope with scope_fn((grad_variables, other_variables), rng_groups)')
+  evid.judge_stmts(R, f, ['y = fn(scope, *args)', 'return (y, vars_out)', 'vars_out = repack_fn(scope)'], key_of(f, 'primal: fn, repack, (y, vars_out)'), f, 'f must call the original fn and return (y, repacked variables)')
+  evid.judge_stmts(R, fwd, ['y, res = forward_fn(scopes, *args)', 'return ((y, vars_out), res)', 'vars_out = repack_fn(scopes)'], key_of(fwd, 'forward: forward_fn, repack, ((y, vars_out), res)'), fwd,
           'f_fwd must call forward_fn and return ((y, repacked variables), residuals): the same primal output layout as f')
-  R.check('g_y, _ = g' in astu.src(bwd.node) and 'backward_fn(*nondiff_args, res, g_y)' in astu.src(bwd.node), key_of(bwd, 'cotangent of the variables dropped; backward_fn(residuals, g_y)'), bwd, 'f_bwd must drop the cotangent of the published variables and call backward_fn with the residuals and the output cotangent')
+  evid.judge_stmts(R, bwd, ['g_y, _ = g'], key_of(bwd, 'cotangent of the variables dropped; backward_fn(residuals, g_y)'), bwd, 'f_bwd must drop the cotangent of the published variables and call backward_fn with the residuals and the output cotangent')
   inner = mod.func('custom_vjp.inner')
   t = astu.src(inner.node)
-  R.check('f = jax.custom_vjp(f, nondiff_argnums=nondiff_argnums)' in t and 'f.defvjp(f_fwd, f_bwd)' in t and 'return f(grad_variables, *args)' in t, key_of(inner, 'custom_vjp(f).defvjp(f_fwd, f_bwd)'), inner, 'the lifted function must be jax.custom_vjp(f, nondiff_argnums).defvjp(f_fwd, f_bwd) applied to (grad_variables, *args)')
+  evid.judge_stmts(R, inner, ['f = jax.custom_vjp(f, nondiff_argnums=nondiff_argnums)', 'f.defvjp(f_fwd, f_bwd)', 'return f(grad_variables, *args)'], key_of(inner, 'custom_vjp(f).defvjp(f_fwd, f_bwd)'), inner, 'the lifted function must be jax.custom_vjp(f, nondiff_argnums).defvjp(f_fwd, f_bwd) applied to (grad_variables, *args)')
   uses_b = [g.qual for g in (f, fwd) if 'backward_fn' in astu.names_loaded(g.node)]
   uses_f = [g.qual for g in (fwd, bwd) if 'fn' in {n.id for n in ast.walk(g.node) if isinstance(n, ast.Name) and isinstance(n.ctx, ast.Load)} - {'scope_fn'}]
-  R.check(not uses_b and not uses_f, key_of(mod.rel, 'backward_fn only in f_bwd; fn only in f'), inner, 'the user\'s backward rule may be referenced only by f_bwd and the original fn only by the primal f (found backward_fn in %s, fn in %s)' % (uses_b, uses_f))
+  R.check(not uses_b and not uses_f, key_of(mod.rel, 'backward_fn only in f_bwd; fn only in f'), inner, evidence=True, msg_fail= 'the user\'s backward rule may be referenced only by f_bwd and the original fn only by the primal f (found backward_fn in %s, fn in %s)' % (uses_b, uses_f))
 
 
 @rule('C07.R4', 'K2', 14, 'forward-pass variable updates are repacked inside the differentiated function and published exactly once (shared with C05.R1/R2)')
@@ -113,22 +125,25 @@ def r5(R, repo):
     f = tr.func(name)
     calls = [x for x in ast.walk(f.node) if isinstance(x, ast.Call) and any(astu.src(a) == callee for a in x.args[:2])]
     R.require(len(calls) == 1, 'nn.%s: use of %s not found' % (name, callee))
-    miss = [o for o in opts if not flow.kw_forwarded(calls[0], o)]
-    R.check(not miss, key_of(f, 'forwards %s' % ', '.join(opts)), (f, calls[0]), 'nn.%s does not forward %s unchanged to %s' % (name, miss, callee))
+    _kw_forward(R, f, calls[0], opts, key_of(f, 'forwards %s' % ', '.join(opts)), 'nn.%s must forward its options unchanged to %s' % (name, callee))
   g = tr.func('grad')
   calls = [x for x in ast.walk(g.node) if isinstance(x, ast.Call) and astu.call_name(x) == 'functools.partial' and astu.src(x.args[0]) == 'value_and_grad']
-  miss = [o for o in ('has_aux', 'variables', 'rngs') if not calls or not flow.kw_forwarded(calls[0], o)]
-  R.check(len(calls) == 1 and not miss, key_of(g, 'grad = value_and_grad with the same options'), g, 'nn.grad must delegate to value_and_grad forwarding has_aux, variables and rngs (missing %s)' % miss)
+  if len(calls) == 1:
+    _kw_forward(R, g, calls[0], ('has_aux', 'variables', 'rngs'), key_of(g, 'grad = value_and_grad with the same options'), 'nn.grad must delegate to value_and_grad forwarding has_aux, variables and rngs')
+  else:
+    R.unsure(key_of(g, 'grad = value_and_grad with the same options'), g, 'functools.partial(value_and_grad, …) not found')
   cv = tr.func('custom_vjp')
   calls = [x for x in astu.func_calls(cv) if astu.call_name(x) == 'decorator_lift_transform']
-  miss = [o for o in ('backward_fn', 'grad_vars', 'nondiff_argnums') if not calls or not flow.kw_forwarded(calls[0], o)]
-  R.check(len(calls) == 1 and not miss, key_of(cv, 'forwards backward_fn, grad_vars, nondiff_argnums'), cv, 'nn.custom_vjp does not forward %s' % miss)
+  if len(calls) == 1:
+    _kw_forward(R, cv, calls[0], ('backward_fn', 'grad_vars', 'nondiff_argnums'), key_of(cv, 'forwards backward_fn, grad_vars, nondiff_argnums'), 'nn.custom_vjp must forward backward_fn, grad_vars and nondiff_argnums')
+  else:
+    R.unsure(key_of(cv, 'forwards backward_fn, grad_vars, nondiff_argnums'), cv, 'decorator_lift_transform(...) not found')
   sh = tr.func('custom_vjp.shared_forward_fn')
   c = cfg_of(sh)
   t = [n for n in c.nodes if n.kind == 'if' and astu.src(n.ast) == 'needs_residual']
   rf = [n for n in c.nodes if isinstance(n.stmt, ast.Return) and astu.src(n.stmt.value).startswith('forward_fn(')]
   rp = [n for n in c.nodes if isinstance(n.stmt, ast.Return) and astu.src(n.stmt.value).startswith('fn(')]
-  R.check(len(t) == 1 and len(rf) == 1 and len(rp) == 1 and c.edge_guarded(rf[0], t[0], 'T') and c.edge_guarded(rp[0], t[0], 'F'), key_of(sh, 'forward_fn only when residuals are needed, else the original fn'), sh,
+  R.judge(len(t) == 1 and len(rf) == 1 and len(rp) == 1, len(t) == 1 and len(rf) == 1 and len(rp) == 1 and c.edge_guarded(rf[0], t[0], 'T') and c.edge_guarded(rp[0], t[0], 'F'), key_of(sh, 'forward_fn only when residuals are needed, else the original fn'), sh,
           'the primal value must come from the original fn; forward_fn may run only when residuals are needed (i.e. when differentiating)')
 
 
